@@ -24,6 +24,9 @@ type QRow struct {
 
 type Cfg struct {
 	Rows []QRow `json:"quotas"`
+	// OneFile: every root quota lives on the same host and in the same file
+	// (needed when one flow uses two unrelated quotas)
+	OneFile bool `json:"one_file,omitempty"`
 }
 
 func qid(i int) string { return fmt.Sprintf("q%d", i) }
@@ -54,11 +57,40 @@ func (k *Cfg) onChain(q, x int) bool {
 	return false
 }
 
-func (k *Cfg) host(i int) string { return fmt.Sprintf("h%d.com", k.root(i)) }
+func (k *Cfg) host(i int) string {
+	if k.OneFile {
+		return "h0.com"
+	}
+	return fmt.Sprintf("h%d.com", k.root(i))
+}
 
 // yamlFiles renders one quota file per root quota (a host must live in one file).
 func (k *Cfg) yamlFiles() map[string]string {
 	files := map[string]string{}
+	if k.OneFile {
+		var sb strings.Builder
+		sb.WriteString("quotas:\n")
+		for i, r := range k.Rows {
+			if r.Parent < 0 {
+				fmt.Fprintf(&sb, "  - id: %s\n    filter:\n      url: \"%s/*\"\n", qid(i), k.host(i))
+				sb.WriteString(strategyYAML(r, "    "))
+			}
+		}
+		first := true
+		for j, ch := range k.Rows {
+			if ch.Parent < 0 {
+				continue
+			}
+			if first {
+				sb.WriteString("internal_limits:\n")
+				first = false
+			}
+			fmt.Fprintf(&sb, "  - id: %s\n    parent_id: %s\n", qid(j), qid(ch.Parent))
+			sb.WriteString(strategyYAML(ch, "    "))
+		}
+		files["q.yaml"] = sb.String()
+		return files
+	}
 	for i, r := range k.Rows {
 		if r.Parent >= 0 {
 			continue
